@@ -108,6 +108,26 @@ def drive_kind(args):
                 except Exception as e:  # noqa
                     c['out'] = 'raise:' + type(e).__name__
                 cases.append(c)
+    # --- P1b: a 0-dim PatternedTensor as SECOND operand, the same first operand used twice: the operation must not
+    # change its operands (the second result equals the first, both equal the carrier operation)
+    from fggs.indices import PatternedTensor as _PT
+    for (ta, a, fa) in rows:
+        if ta.startswith('tensor') or 'expand' in ta or 'bcast' in ta:
+            continue
+        for pv in POINTS[kind]:
+            for op in ('add', 'mul'):
+                S = _PT(tens([pv], kind, dtype).reshape(()))
+                for rep in ('first', 'again'):
+                    c = dict(base, kind='ew', op=op, A=fa, B=[pv] * len(fa), tag=[kind, dtname, op, ta, 'scalar_pt', rep], R=[])
+                    try:
+                        r = getattr(sr, op)(a, S)
+                        rd = r.to_dense() if hasattr(r, 'to_dense') else r
+                        if rd.numel() != len(fa):
+                            rd = rd.expand(a.size() if hasattr(a, 'size') else a.shape)
+                        c['R'] = proj(rd, kind, dtype)
+                    except Exception as e:  # noqa
+                        c['out'] = 'raise:' + type(e).__name__
+                    cases.append(c)
     # --- P2: laws on all triples (0-dim tensors)
     P = POINTS[kind]
     s = lambda x: tens([x], kind, dtype).reshape(())
